@@ -265,6 +265,22 @@ func (m *Model) Observe(t *ctree.Tree, paths, patterns [][]string) error {
 			return err
 		}
 	}
+	// Walk and WalkSorted hand every visitor invocation a path slice of its own (callers such as
+	// client.CacheClient.Leaves keep it): a kept slice still reads the same after the walk.
+	for name, walk := range map[string]func(ctree.VisitFunc) error{"Walk": t.Walk, "WalkSorted": t.WalkSorted} {
+		var kept [][]string
+		var copies []string
+		walk(func(path []string, _ *ctree.Leaf, _ interface{}) error {
+			kept = append(kept, path)
+			copies = append(copies, key(append([]string{}, path...)))
+			return nil
+		})
+		for i := range kept {
+			if key(kept[i]) != copies[i] {
+				return fmt.Errorf("%s: the path slice handed to visitor invocation %d read %q during the invocation and reads %q after the walk", name, i, unkey(copies[i]), kept[i])
+			}
+		}
+	}
 	all := m.Query(nil)
 	got, err := collect(t.Walk)
 	if err != nil {
